@@ -925,6 +925,34 @@ impl StoreEnv {
                 let _ = fs::remove_dir_all(self.streams_dir());
                 (true, Value::Null)
             }
+            "break_artifacts" => {
+                // the artifact store cannot be written: its blobs directory is a plain file
+                let dir = self.ws.join(".rip/artifacts/blobs");
+                let _ = fs::remove_dir_all(&dir);
+                let _ = fs::create_dir_all(self.ws.join(".rip/artifacts"));
+                (fs::write(&dir, b"not a directory").is_ok(), Value::Null)
+            }
+            "mend_artifacts" => {
+                let dir = self.ws.join(".rip/artifacts/blobs");
+                let _ = fs::remove_file(&dir);
+                (fs::create_dir_all(&dir).is_ok(), Value::Null)
+            }
+            "handoff_frames" => {
+                // every handoff lineage frame in the whole log, with whether its summary can be resolved
+                let bytes = fs::read(log_path(&self.data)).unwrap_or_default();
+                let text = String::from_utf8_lossy(&bytes).to_string();
+                let mut out = Vec::new();
+                for l in text.split('\n') {
+                    if let Ok(v) = serde_json::from_str::<Value>(l) {
+                        if v["type"] == "continuity_handoff_created" {
+                            let id = v["summary_artifact_id"].as_str().map(str::to_string);
+                            let readable = id.as_ref().map(|i| self.ws.join(".rip/artifacts/blobs").join(i).is_file()).unwrap_or(false);
+                            out.push(json!({"artifact_named": id.is_some(), "artifact_readable": readable, "markdown_inline": !v["summary_markdown"].is_null()}));
+                        }
+                    }
+                }
+                (true, json!(out))
+            }
             other => (false, Value::String(format!("unknown op {other}"))),
         };
         json!({"ok": ok, "ret": ret})
